@@ -63,6 +63,14 @@ Eval(x) ==
                /\ (total # Len(Build(T.kind, x.fed[1][1].tid, 0, x.fed[1][1].uid, x.fed[1][1].pdu))
                    \/ asked # Len(Build(T.kind, x.fed[1][1].tid, 0, x.fed[1][1].uid, x.fed[1][1].pdu)))
             THEN {"ReadsExactlyFrame"} ELSE {})     \* neither stops short nor asks for bytes that never come
+      \cup (LET k == Len(x.writes)
+                mine == SelectSeq(x.reads, LAMBDA r : r.att = k)
+            IN IF x.exact = 1 /\ obs.result = "reply" /\ k >= 2 /\ k <= Len(x.fed) /\ Len(x.fed[k]) = 1
+                  /\ (\A j \in 1..(k - 1) : x.fed[j] = <<>>)
+                  /\ LET n == Len(Build(T.kind, x.fed[k][1].tid, 0, x.fed[k][1].uid, x.fed[k][1].pdu)) IN
+                     \/ SumSeq([j \in 1..Len(mine) |-> mine[j].got]) # n
+                     \/ SumSeq([j \in 1..Len(mine) |-> mine[j].asked]) # n
+               THEN {"ReadsExactlyFrame"} ELSE {})     \* the same on a retransmission that is answered: the prediction does not drift
 
 Verdict(status, step, clauses, detail) ==
   PrintT("VERDICT " \o ToJson([id |-> T.id, status |-> status, step |-> step, clauses |-> clauses, detail |-> detail]))
